@@ -1,6 +1,8 @@
 package main
 
 import (
+	"go/token"
+	"go/types"
 	_ "embed"
 	"encoding/json"
 	"fmt"
@@ -246,4 +248,170 @@ func ruleStillWired(r *Run) {
 	}
 	r.Stat("functions_checked", n)
 	r.Stat("baseline_functions_no_longer_declared", gone)
+}
+
+// ruleChannelsWired: a channel kept in a struct field that somebody receives from must have somebody who sends on it
+// (or closes it, or hands it to a function that can). A deleted send leaves the receiver, and every rule about the
+// receiver, intact — and the messages of that kind silently stop. Checked for the structs declared in the
+// property's anchor files.
+func ruleChannelsWired(r *Run) {
+	files := anchorFilesOf(r.Prop)
+	r.Begin("Wc", "channel fields are fed: for every channel-typed field of a struct declared in the property's anchor files that is received from somewhere in the module, there is a send on it or a call that is handed the channel (a close alone delivers nothing)", 1)
+	p := r.P
+	inFiles := func(f string) bool {
+		for _, pat := range files {
+			if ok, _ := filepath.Match(pat, f); ok || pat == f {
+				return true
+			}
+		}
+		return false
+	}
+	type use struct{ recv, feed int }
+	uses := map[string]*use{}
+	declared := map[string]string{} // field key -> position
+	for _, pk := range p.Pkgs {
+		if pk.Types == nil {
+			continue
+		}
+		sc := pk.Types.Scope()
+		for _, nm := range sc.Names() {
+			tn, ok := sc.Lookup(nm).(*types.TypeName)
+			if !ok {
+				continue
+			}
+			n, ok := tn.Type().(*types.Named)
+			if !ok {
+				continue
+			}
+			st, ok := n.Underlying().(*types.Struct)
+			if !ok {
+				continue
+			}
+			pos := p.SSA.Fset.Position(tn.Pos())
+			rel, _ := filepath.Rel(p.Dir, pos.Filename)
+			if !inFiles(rel) {
+				continue
+			}
+			for i := 0; i < st.NumFields(); i++ {
+				if _, isCh := st.Field(i).Type().Underlying().(*types.Chan); isCh {
+					fk := fieldKey(n, st.Field(i))
+					declared[fk] = p.pos(st.Field(i).Pos())
+					uses[fk] = &use{}
+				}
+			}
+		}
+	}
+	if len(declared) == 0 {
+		r.Check("channel fields", true, "", "", "no struct with channel fields is declared in the anchor files")
+		return
+	}
+	fieldOfChan := func(v ssa.Value) string {
+		for _, l := range p.Leaves(v, provOpts{}) {
+			if strings.HasPrefix(l, "field:") {
+				if _, ok := uses[l[6:]]; ok {
+					return l[6:]
+				}
+			}
+		}
+		return ""
+	}
+	for _, fn := range p.Funcs {
+		if fn.Blocks == nil {
+			continue
+		}
+		allInstrs(fn, func(ins ssa.Instruction) {
+			switch x := ins.(type) {
+			case *ssa.UnOp:
+				if x.Op == token.ARROW {
+					if fk := fieldOfChan(x.X); fk != "" {
+						uses[fk].recv++
+					}
+				}
+			case *ssa.Range:
+				if _, isCh := x.X.Type().Underlying().(*types.Chan); isCh {
+					if fk := fieldOfChan(x.X); fk != "" {
+						uses[fk].recv++
+					}
+				}
+			case *ssa.Send:
+				if fk := fieldOfChan(x.Chan); fk != "" {
+					uses[fk].feed++
+				}
+			case *ssa.Select:
+				for _, st := range x.States {
+					fk := fieldOfChan(st.Chan)
+					if fk == "" {
+						continue
+					}
+					if st.Dir == types.SendOnly {
+						uses[fk].feed++
+					} else {
+						uses[fk].recv++
+					}
+				}
+			default:
+				cc := instrCall(ins)
+				if cc == nil {
+					return
+				}
+				if b, isB := cc.Value.(*ssa.Builtin); isB && (b.Name() == "close" || b.Name() == "len" || b.Name() == "cap") {
+					// closing ends the stream of values, it does not deliver one — except on a pure signal channel
+					if b.Name() == "close" && len(cc.Args) == 1 {
+						if ct, isCh := cc.Args[0].Type().Underlying().(*types.Chan); isCh {
+							if st, isSt := ct.Elem().Underlying().(*types.Struct); isSt && st.NumFields() == 0 {
+								if fk := fieldOfChan(cc.Args[0]); fk != "" {
+									uses[fk].feed++
+								}
+							}
+						}
+					}
+					return
+				}
+				for _, a := range cc.Args {
+					if _, isCh := a.Type().Underlying().(*types.Chan); isCh {
+						if fk := fieldOfChan(a); fk != "" {
+							uses[fk].feed++ // close(ch), or a helper that is handed the channel (it may send or receive)
+							uses[fk].recv++
+						}
+					}
+				}
+			}
+		})
+	}
+	// only channels that the module creates for the field itself: a field that is assigned a channel obtained
+	// elsewhere (a subscription handed out by another layer) is fed through that other reference
+	own := map[string]bool{}
+	aliased := map[string]bool{}
+	for _, fn := range p.Funcs {
+		allInstrs(fn, func(ins ssa.Instruction) {
+			st, ok := ins.(*ssa.Store)
+			if !ok {
+				return
+			}
+			fk := fieldKeyOfAddr(st.Addr)
+			if _, ok := uses[fk]; !ok {
+				return
+			}
+			if mk, isMk := st.Val.(*ssa.MakeChan); isMk && mk.Referrers() != nil && len(*mk.Referrers()) == 1 {
+				own[fk] = true
+			} else {
+				aliased[fk] = true
+			}
+		})
+	}
+	var ks []string
+	for fk := range declared {
+		ks = append(ks, fk)
+	}
+	sort.Strings(ks)
+	for _, fk := range ks {
+		u := uses[fk]
+		if u.recv == 0 || !own[fk] || aliased[fk] {
+			continue
+		}
+		r.Check("channel "+fk+" is fed", u.feed > 0, declared[fk], "", fmt.Sprintf("%d receive site(s), %d feeding site(s) (send, or call handed the channel)", u.recv, u.feed))
+	}
+	if len(r.cur.Obs) == 0 {
+		r.Check("channel fields", true, "", "", "no channel field of the anchor files is both created for the field and received from")
+	}
 }
